@@ -301,6 +301,17 @@ impl Profile {
                 ],
                 ..base
             },
+            // Short histories with exactly one write batch as large as the log accepts (1 MiB,
+            // 34 values of up to 32 KiB over keys of their own): the frame that meets the log's
+            // block boundary and its write buffer.
+            "kvs-big" => Profile {
+                name: "kvs-big",
+                min_ops: 5,
+                max_ops: 14,
+                scans: false,
+                verify: false,
+                ..base
+            },
             "kvs-stall" => Profile {
                 name: "kvs-stall",
                 adversarial_thresholds: true,
@@ -569,6 +580,43 @@ fn gen_opts(rng: &mut Rng, p: &Profile) -> (Vec<(String, String)>, bool) {
     (o, small_files)
 }
 
+/// A batch over the 34 keys from `first_big` on whose encoded size is the largest the log accepts
+/// minus `slack` bytes.  Sequence numbers below 128 (every history of this profile) encode in one
+/// byte, so the size does not depend on where the batch sits in the history.
+fn big_batch(first_big: usize, keys: &[Vec<u8>], slack: u64) -> Op {
+    use sst::Builder;
+    let limit = 1u64 << 20;
+    let mut ents: Vec<Ent> = Vec::new();
+    let mut wb = sst::log::WriteBatch::default();
+    let full = 32_000usize;
+    for (j, key) in keys[first_big..].iter().enumerate() {
+        let fits = |wb: &sst::log::WriteBatch, l: usize| -> Option<u64> {
+            let mut t = wb.clone();
+            t.put(key, 1, &vec![0u8; l]).ok()?;
+            Some(t.approximate_size() as u64)
+        };
+        let target = limit - slack;
+        match fits(&wb, full) {
+            Some(sz) if sz + 64 < target => {
+                wb.put(key, 1, &vec![0u8; full]).expect("sized above");
+                ents.push((first_big + j, Some(full)));
+            }
+            _ => {
+                // the last entry: the value length that makes the batch exactly `target` bytes
+                for l in (8..=full).rev() {
+                    if fits(&wb, l) == Some(target) {
+                        wb.put(key, 1, &vec![0u8; l]).expect("sized above");
+                        ents.push((first_big + j, Some(l)));
+                        break;
+                    }
+                }
+                break;
+            }
+        }
+    }
+    Op::Batch { ents }
+}
+
 /// Generate one history from a seed and a profile.
 pub fn generate(seed: u64, p: &Profile) -> History {
     let mut rng = Rng::new(crate::rng::mix(&[seed, crate::rng::str_seed(p.name)]));
@@ -721,6 +769,16 @@ pub fn generate(seed: u64, p: &Profile) -> History {
             slots_open = [false; 3];
         }
         ops.push(op);
+    }
+    let mut keys = keys;
+    if p.name == "kvs-big" {
+        let first_big = keys.len();
+        for j in 0..34 {
+            keys.push(format!("~big{j:02}").into_bytes());
+        }
+        let at = rng.usize_below(ops.len() + 1);
+        let slack = *rng.pick(&[0u64, 0, 1, 2, 3, 5, 8, 13, 21, 40]);
+        ops.insert(at, big_batch(first_big, &keys, slack));
     }
     History {
         seed,
